@@ -723,6 +723,254 @@ fn kpops_main(sizes: &str) {
     }
 }
 
+
+/// ---------------------------------------------------------------- exhaustive schedules (thorough tier)
+/// Stateless DFS over the script choices: a schedule is the list of option indices taken at the
+/// decision points; every leaf re-executes the whole case from scratch.
+struct DfsChooser {
+    prefix: Vec<usize>,
+    arity: Vec<usize>,
+    depth: usize,
+    since_change: usize, // stream: polls since the last drop / interrupt
+}
+
+impl DfsChooser {
+    fn options(&mut self, v: &View, step: usize) -> Vec<Vec<Act>> {
+        let r = &v.runs[0];
+        let interrupting = matches!(r.cfg.strat, Strat::Finish | Strat::PollN(_) | Strat::Ignore);
+        let mut o: Vec<Vec<Act>> = vec![];
+        if r.finished {
+            return o;
+        }
+        if r.cfg.is_stream() {
+            let last = r.last_poll.clone().unwrap_or_default();
+            let ended = last == "none" || last == "panic";
+            if step == 0 {
+                o.push(vec![Act::Poll { run: 0 }]);
+                if interrupting {
+                    o.push(vec![Act::Intr { run: 0 }, Act::Poll { run: 0 }]);
+                }
+                return o;
+            }
+            if ended {
+                // drop what is left in index order, then stop (one canonical tail)
+                if let Some(&f) = r.live.first() {
+                    o.push(vec![Act::Drop { run: 0, f }]);
+                } else if r.polls < 40 && self.since_change == 0 {
+                    o.push(vec![Act::Poll { run: 0 }]);
+                }
+                return o;
+            }
+            if !(last.starts_with("pending") && self.since_change > 0) && r.polls < 40 {
+                o.push(vec![Act::Poll { run: 0 }]);
+            }
+            for &f in &r.live {
+                o.push(vec![Act::Drop { run: 0, f }]);
+            }
+            if r.live.len() >= 2 {
+                o.push(r.live.iter().map(|&f| Act::Drop { run: 0, f }).collect());
+            }
+            if interrupting && !r.intr_sent {
+                o.push(vec![Act::Intr { run: 0 }]);
+            }
+            return o;
+        }
+        if step == 0 {
+            o.push(vec![]);
+            if interrupting {
+                o.push(vec![Act::Intr { run: 0 }]);
+            }
+            return o;
+        }
+        for &f in &r.inflight {
+            o.push(vec![Act::Open { run: 0, f, ok: true, intr: false }]);
+            if r.cfg.is_try() {
+                o.push(vec![Act::Open { run: 0, f, ok: false, intr: false }]);
+            }
+        }
+        if r.inflight.len() >= 2 {
+            o.push(r.inflight.iter().map(|&f| Act::Open { run: 0, f, ok: true, intr: false }).collect());
+            o.push(r.inflight.iter().rev().map(|&f| Act::Open { run: 0, f, ok: true, intr: false }).collect());
+        }
+        if interrupting && !r.intr_sent && !r.inflight.is_empty() {
+            o.push(vec![Act::Intr { run: 0 }]);
+        }
+        o
+    }
+
+    fn choose(&mut self, v: &View, step: usize) -> Option<Vec<Act>> {
+        let opts = self.options(v, step);
+        if opts.is_empty() || self.depth > 60 {
+            return None;
+        }
+        let k = if self.depth < self.prefix.len() { self.prefix[self.depth] } else { 0 };
+        if self.depth >= self.arity.len() {
+            self.arity.push(opts.len());
+        } else {
+            self.arity[self.depth] = opts.len();
+        }
+        if self.depth >= self.prefix.len() {
+            self.prefix.push(0);
+        }
+        self.depth += 1;
+        let b = opts[k.min(opts.len() - 1)].clone();
+        if b.iter().any(|a| matches!(a, Act::Poll { .. })) && b.len() == 1 {
+            self.since_change += 1;
+        } else {
+            self.since_change = 0;
+        }
+        Some(b)
+    }
+}
+
+fn enum_cfgs(stream: bool) -> Vec<RunCfg> {
+    let mut v = vec![];
+    let combos: Vec<(Strat, bool)> = if cfg!(feature = "intr") {
+        vec![
+            (Strat::Non, true),
+            (Strat::Ignore, true),
+            (Strat::Finish, true),
+            (Strat::Finish, false),
+            (Strat::PollN(0), false),
+            (Strat::PollN(1), true),
+            (Strat::PollN(2), false),
+        ]
+    } else {
+        vec![(Strat::Non, true)]
+    };
+    let apis = if stream { stream_apis() } else { fut_apis() };
+    for api in apis {
+        let base = RunCfg { api: api.to_string(), rev: false, limit: None, strat: Strat::Non, incl: true };
+        let limits: Vec<Option<usize>> = if api.contains("for_each_concurrent") { vec![None, Some(1), Some(2)] } else { vec![None] };
+        for lim in limits {
+            if base.has_opts() {
+                for rev in [false, true] {
+                    let cs: Vec<(Strat, bool)> = if api == "stream_with" { vec![(Strat::Non, true)] } else { combos.clone() };
+                    for (st, incl) in cs {
+                        v.push(RunCfg { rev, limit: lim, strat: st, incl, ..base.clone() });
+                    }
+                }
+            } else {
+                v.push(RunCfg { limit: lim, ..base.clone() });
+            }
+        }
+    }
+    v
+}
+
+fn enum_graphs(maxn: usize) -> Vec<(Vec<Op>, String)> {
+    let mut gs = vec![];
+    for n in 0..=maxn {
+        let pairs: Vec<(usize, usize)> = (0..n).flat_map(|a| (0..n).filter(move |&b| a != b).map(move |b| (a, b))).collect();
+        for mask in 0u32..(1u32 << pairs.len()) {
+            let es: Vec<(usize, usize)> = pairs.iter().enumerate().filter(|(i, _)| mask & (1 << i) != 0).map(|(_, p)| *p).collect();
+            // acyclic and no 2-cycles: Kahn
+            let mut indeg = vec![0; n];
+            for &(_, b) in &es {
+                indeg[b] += 1;
+            }
+            let mut q: Vec<usize> = (0..n).filter(|&i| indeg[i] == 0).collect();
+            let mut seen = 0;
+            while let Some(x) = q.pop() {
+                seen += 1;
+                for &(a, b) in &es {
+                    if a == x {
+                        indeg[b] -= 1;
+                        if indeg[b] == 0 {
+                            q.push(b);
+                        }
+                    }
+                }
+            }
+            if seen != n {
+                continue;
+            }
+            for pat in 0..3 {
+                if n == 0 && pat > 0 {
+                    continue;
+                }
+                let mut ops = vec![];
+                for i in 0..n {
+                    let (r, w) = match pat {
+                        0 => (vec![], vec![]),
+                        1 => (vec![], vec![0]),
+                        _ => {
+                            if i == 0 {
+                                (vec![], vec![0])
+                            } else {
+                                (vec![0], vec![])
+                            }
+                        }
+                    };
+                    ops.push(Op::Fn { tag: 0, r, w });
+                }
+                for (j, &(a, b)) in es.iter().enumerate() {
+                    ops.push(Op::Edge { k: if (j + mask as usize) % 2 == 0 { K::Logic } else { K::Contains }, a, b });
+                }
+                gs.push((ops, format!("enum{}m{}p{}", n, mask, pat)));
+            }
+        }
+    }
+    gs
+}
+
+fn enum_main(maxn: usize, part: usize, parts: usize, streams: bool) {
+    use std::io::Write;
+    let stdout = std::io::stdout();
+    let mut lock = stdout.lock();
+    let graphs = enum_graphs(maxn);
+    let cfgs = enum_cfgs(streams);
+    let mut idx = 0usize;
+    let mut rng = Rng(1);
+    for (gi, (ops, shape)) in graphs.iter().enumerate() {
+        for (ci, cfg) in cfgs.iter().enumerate() {
+            idx += 1;
+            if idx % parts != part {
+                continue;
+            }
+            let mut prefix: Vec<usize> = vec![];
+            let mut leaf = 0usize;
+            loop {
+                let mut ch = DfsChooser { prefix: prefix.clone(), arity: vec![], depth: 0, since_change: 0 };
+                let mut out = vec![];
+                out.push(format!("case e{}_{}_{} feat={} shape={}", gi, ci, leaf, FEAT, shape));
+                for op in ops {
+                    out.push(op.line());
+                }
+                let (b, res) = apply_ops(ops, "");
+                out.extend(res);
+                let (g, built) = build(b);
+                out.push(built);
+                if let Some(mut g) = g {
+                    session(&mut g, std::slice::from_ref(cfg), &mut out, &mut |v, step| ch.choose(v, step));
+                }
+                out.push("end".into());
+                for l in out {
+                    let _ = writeln!(lock, "{}", l);
+                }
+                leaf += 1;
+                // next schedule
+                let mut p = ch.prefix.clone();
+                p.truncate(ch.depth);
+                let mut next = None;
+                while let Some(last) = p.pop() {
+                    let d = p.len();
+                    if last + 1 < ch.arity[d] {
+                        p.push(last + 1);
+                        next = Some(p.clone());
+                        break;
+                    }
+                }
+                match next {
+                    Some(n) if leaf < 20000 => prefix = n,
+                    _ => break,
+                }
+            }
+        }
+    }
+    let _ = &mut rng;
+}
+
 fn main() {
     std::panic::set_hook(Box::new(|_| {}));
     let args: Vec<String> = std::env::args().collect();
@@ -738,6 +986,12 @@ fn main() {
         ),
         Some("replay") => replay_main(&args[2]),
         Some("kpops") => kpops_main(&get("--sizes", "8,16,24,32")),
+        Some("enum") => enum_main(
+            get("--maxn", "3").parse().unwrap(),
+            get("--part", "0").parse().unwrap(),
+            get("--parts", "1").parse().unwrap(),
+            get("--kind", "run") == "stream",
+        ),
         _ => {
             eprintln!("usage: fg_harness gen|replay|kpops …");
             std::process::exit(2);
